@@ -617,32 +617,33 @@ macro_rules! trait_views {
             use $cm::{MessageOption, MinimalWritableMessage, MutableWritableMessage, ReadableMessage};
             // last coordinate: an option that was added and cleared again (its emptied list stays in the
             // map) below / between / above the others: 0 none, 1 number 3, 2 number 13, 3 number 65001
-            let radices = [SELECTIONS, 2, 4, 4];
+            const CLEARED: [&[u16]; 8] = [&[], &[3], &[13], &[65001], &[3, 4], &[13, 14], &[3, 4, 5], &[3, 13, 14, 65001, 65002]];
+            let radices = [SELECTIONS, 2, 4, CLEARED.len() as u64];
             let codes_sub: [u8; 4] = [0x01, 0x45, 0x00, 0xFF];
             let n = product(&radices) + 256;
             let fam = concat!("trait-views-", $label);
             ctx.family(
                 rep,
                 fam,
-                concat!("coap-message ", $label, ": every ordered selection of <= 4 of the options {1, 11, 11', 12, 60, 258, 65000} x payload {none, 3 bytes} x 4 codes x {no cleared option, an added-then-cleared option below / between / above the others}, plus all 256 codes: reader view == raw state (options flattened in ascending number, per-number insertion order); writer calls change exactly the raw state; set_from_message reproduces code/options/payload; payload_mut_with_len / truncate / mutate_options visible through the raw API"),
+                concat!("coap-message ", $label, ": every ordered selection of <= 4 of the options {1, 11, 11', 12, 60, 258, 65000} x payload {none, 3 bytes} x 4 codes x {no cleared option, one added-then-cleared option below / between / above the others, two or three adjacent cleared numbers, five cleared numbers spread over the range}, plus all 256 codes: reader view == raw state (options flattened in ascending number, per-number insertion order); writer calls change exactly the raw state; set_from_message reproduces code/options/payload; payload_mut_with_len / truncate / mutate_options visible through the raw API"),
                 n,
                 true,
                 |i, rep| {
                     let (sel, with_payload, code, cleared) = if i < product(&radices) {
                         let d = decode(i, &radices);
-                        (selection(d[0]), d[1] == 1, codes_sub[d[2] as usize], [0u16, 3, 13, 65001][d[3] as usize])
+                        (selection(d[0]), d[1] == 1, codes_sub[d[2] as usize], CLEARED[d[3] as usize])
                     } else {
-                        (vec![1, 3], true, (i - product(&radices)) as u8, 0u16)
+                        (vec![1, 3], true, (i - product(&radices)) as u8, CLEARED[0])
                     };
                     let payload: Vec<u8> = if with_payload { vec![0xFF, 0x00, 0x7F] } else { vec![] };
-                    let case = || Json::obj().set("options_in_call_order", sel.iter().map(|k| TV_OPTS[*k].0).collect::<Vec<_>>()).set("code", reg::dotted(code)).set("payload_len", payload.len()).set("added_then_cleared_option", cleared);
+                    let case = || Json::obj().set("options_in_call_order", sel.iter().map(|k| TV_OPTS[*k].0).collect::<Vec<_>>()).set("code", reg::dotted(code)).set("payload_len", payload.len()).set("added_then_cleared_options", format!("{:?}", cleared));
                     let r = guard(|| {
                         // raw construction
                         let mut raw = Packet::new();
                         raw.header.code = MessageClass::from(code);
-                        if cleared != 0 {
-                            raw.add_option(CoapOption::from(cleared), vec![0xCC]);
-                            raw.clear_option(CoapOption::from(cleared));
+                        for c in cleared {
+                            raw.add_option(CoapOption::from(*c), vec![0xCC]);
+                            raw.clear_option(CoapOption::from(*c));
                         }
                         for k in &sel {
                             raw.add_option(CoapOption::from(TV_OPTS[*k].0), TV_OPTS[*k].1.to_vec());
@@ -650,9 +651,9 @@ macro_rules! trait_views {
                         raw.payload = payload.clone();
                         // construction through the writer trait
                         let mut via = Packet::new();
-                        if cleared != 0 {
-                            Fin::fin(MinimalWritableMessage::add_option(&mut via, CoapOption::from(cleared), &[0xCC]));
-                            via.clear_option(CoapOption::from(cleared));
+                        for c in cleared {
+                            Fin::fin(MinimalWritableMessage::add_option(&mut via, CoapOption::from(*c), &[0xCC]));
+                            via.clear_option(CoapOption::from(*c));
                         }
                         MinimalWritableMessage::set_code(&mut via, MessageClass::from(code));
                         for k in &sel {
